@@ -240,7 +240,7 @@ def gen_spec(rng, ptype, for_schema=False):
                 continue
             seen.add(key)
             objs.append(o)
-        if ptype == 'Selector' and not for_schema and rng.random() < 0.3 and not allow_none:
+        if rng.random() < 0.3 and not allow_none:
             objs.append(None)
         if rng.random() < 0.4:
             kw['objects'] = {f'name{i}': o for i, o in enumerate(objs)}
